@@ -31,8 +31,12 @@ def main():
     if "--tier" in sys.argv:
         tier = sys.argv[sys.argv.index("--tier") + 1]
         args = [a for a in args if a != tier]
+    if "--src" in sys.argv:
+        args = [a for a in args if a != sys.argv[sys.argv.index("--src") + 1]]
     wt, name, props = args[0], args[1], args[2:]
     src = os.path.join(wt, "_seeded")
+    if "--src" in sys.argv:  # several changes per worktree: <wt>/_seeded/<sub>/
+        src = os.path.join(wt, "_seeded", sys.argv[sys.argv.index("--src") + 1])
     d = tempfile.mkdtemp(prefix="pvkeep_", dir="/tmp")
     meta = {"name": name, "properties": props, "source": "independent sub-agent given only the property text and a scratch worktree"}
     try:
